@@ -111,6 +111,19 @@ MCElems ==
     \cup {Elem(tag, "dict", <<>>, <<>>) : tag \in {KConf, KA}}
 
 ---------------------------------------------------------------------------
+(* sanity of the specification itself, evaluated by TLC before it starts *)
+CRTree == DictV(<< <<S(KA), S(<<"a","\r","\n","b","\r">>)>> >>)
+ASSUME ~InDomain("xml", CRTree) /\ InDomain("json", CRTree)
+\* the restriction "without carriage return" is needed: outside it the XML mapping is not invertible
+ASSUME ~SameTree(FromElement(XmlChannel(ToElement(KConf, CRTree)), "dict"), CRTree)
+ASSUME ToElement(X, BoolV(TRUE)) = Elem(X, "bool", <<"t","r","u","e">>, <<>>)
+ASSUME ToElement(X, FloatH(-5)).text = <<"-","2",".","5">> /\ ToElement(X, IntV(-7)).text = <<"-","7">>
+ASSUME FloatOfText(<<"-","0",".","0">>).v = NZeroV /\ FloatOfText(<<"2",".","5","0">>).v = FloatH(5)
+ASSUME IntOfText(<<"2","1","4","7","4","8","3","6","4","7">>).v = IntV(2147483647)
+ASSUME IntOfText(<<"-","2","1","4","7","4","8","3","6","4","8">>).v.t = "big"
+ASSUME In64(<<"-">> \o Mag63n) /\ In64(Mag63) /\ ~In64(Mag63n)
+ASSUME ~IsNCName(<<"a",":","b">>) /\ ~IsNCName(<<"1">>) /\ ~IsNCName(<<>>) /\ IsNCName(<<"_","a",".","1","-">>)
+
 (* export: the plan once, one line per session start, one JSON line per complete session *)
 Slim(r) ==
     [skipped |-> r.skipped, elem |-> r.elem,
